@@ -4,6 +4,10 @@ namespace vs {
 std::string run_panoc(const KV &kv);
 }
 int main() {
+    // solvers print diagnostics to std::cout (`*os`): keep the protocol stream separate
+    std::ostream real_out(std::cout.rdbuf());
+    std::ostringstream sink;
+    std::cout.rdbuf(sink.rdbuf());
     std::string line;
     while (std::getline(std::cin, line)) {
         vs::KV kv(line);
@@ -17,6 +21,7 @@ int main() {
         } catch (std::exception &e) {
             out = std::string("exception ") + e.what();
         }
-        std::cout << out << '\n';
+        real_out << out << '\n';
+        sink.str("");
     }
 }
